@@ -19,7 +19,7 @@ use std::io::Write;
 use std::path::PathBuf;
 use std::process::{Command, Stdio};
 
-pub const RULE: &str = "A worker generates a corpus from its seed: ~100 programs in leak-detector families (members share a small name pool - labels, .equ, .set, .def, #define, macros, differing only in case where the namespace is case-insensitive - and about half are built to fail because something is absent: a symbol, an alias, a macro, a define, a device, a second .device, an instruction the device forbids, a capacity) and ~20 include trees (the generator of engine inctree, several trees using the same include names from different directories), plus per-thread private trees one of whose include files is rewritten between builds. Every corpus entry is first built alone in two fresh processes under two hash seeds and clock origins (they must agree). An episode is a fresh process with 1-4 caller threads x scripts of builds: concurrent (uniform / sticky / PCT scheduling at every intercepted libc call and hook site), sequential (whole-operation permutations) or long histories (30-120 builds of few entries, mostly failing, on one or two threads); a third of the episodes cut one or two builds down with an I/O fault on an include. Every non-faulted build must equal its reference byte for byte (images, sizes, messages, error text), the cwd must stay what it was. Non-trivial: a context switch happened inside a build, or two builds shared a thread; distinct by the hash of (scripts, schedule decision sequence).";
+pub const RULE: &str = "A worker generates a corpus from its seed: ~100 programs in leak-detector families (members share a small name pool - labels, .equ, .set, .def, #define, macros, differing only in case where the namespace is case-insensitive - and about half are built to fail because something is absent: a symbol, an alias, a macro, a define, a device, a second .device, an instruction the device forbids, a capacity) and ~20 include trees (the generator of engine inctree, several trees using the same include names from different directories), plus per-thread private trees one of whose include files is rewritten between builds. Every corpus entry is first built alone in two fresh processes under two hash seeds and clock origins (they must agree). An episode is a fresh process with 1-4 caller threads x scripts of builds: concurrent (uniform / sticky / PCT scheduling at every intercepted libc call and hook site), mirror (all threads build the same entries at the same time), sequential (whole-operation permutations) or long histories (30-120 builds of few entries, mostly failing, on one or two threads); a third of the episodes cut one or two builds down with an I/O fault on an include. Every non-faulted build must equal its reference byte for byte (images, sizes, messages, error text), the cwd must stay what it was. Non-trivial: a context switch happened inside a build, or two builds shared a thread; distinct by the hash of (scripts, schedule decision sequence).";
 
 pub const ASSUMPTIONS: &[&str] = &[
     "the reference is the same tree's library run alone in a fresh process (the property is relational: same source, same result)",
@@ -560,9 +560,10 @@ pub fn gen_episode(c: &Corpus, seed: u64) -> Scenario {
     let mut r = Rng::new(seed);
     let all: Vec<&String> = c.entries.keys().filter(|k| !k.starts_with('v')).collect();
     let fams: Vec<&String> = c.families.keys().collect();
-    let mode = match r.below(10) {
-        0..=4 => "concurrent",
-        5 | 6 => "sequential",
+    let mode = match r.below(20) {
+        0..=8 => "concurrent",
+        9 | 10 => "mirror",
+        11..=13 => "sequential",
         _ => "long",
     };
     let mut threads: Vec<Vec<Op>> = vec![];
@@ -600,6 +601,22 @@ pub fn gen_episode(c: &Corpus, seed: u64) -> Scenario {
             threads.push(script);
         }
         strategy = if nt == 1 { StrategySpec { kind: "sequential".into(), p: 0, d: 0 } } else { StrategySpec { kind: "sticky".into(), p: 20, d: 0 } };
+    } else if mode == "mirror" {
+        // every thread builds the same few entries in the same order at the same time: the same
+        // files open, the same names evaluated, the same macros recorded - maximal overlap
+        let nt = r.range(2, 4) as usize;
+        let fam = fams[r.usize(fams.len())].clone();
+        let n = r.range(1, 3) as usize;
+        let script: Vec<Op> = (0..n).filter_map(|_| pick_from_family(&mut r, &fam)).map(|id| Op { entry: id, rules: vec![] }).collect();
+        for _ in 0..nt {
+            threads.push(script.clone());
+        }
+        strategy = match r.below(4) {
+            0 => StrategySpec { kind: "uniform".into(), p: 0, d: 0 },
+            1 => StrategySpec { kind: "sticky".into(), p: 300, d: 0 },
+            2 => StrategySpec { kind: "sticky".into(), p: 100, d: 0 },
+            _ => StrategySpec { kind: "pct".into(), p: 0, d: 3 },
+        };
     } else {
         let nt = r.range(1, 4) as usize;
         // one or two focus families: members are paired on one thread back to back and on
